@@ -6,6 +6,7 @@ import (
 	"time"
 
 	zz "github.com/basekick-labs/arc/internal/zzverif"
+	hraft "github.com/hashicorp/raft"
 )
 
 func c22s(i int) string { return string(rune('0' + i)) }
@@ -422,13 +423,21 @@ func VerifC22() {
 		c22IndexesAgree(f, "after the populating history")
 		c22ParentsExist(f, "after the populating history")
 	}
-	var g *ClusterFSM
+	var g, frozen *ClusterFSM
+	var lateSnap hraft.FSMSnapshot
+	var lerr error
 	snapAt := zz.Choice("snapshot_after", k+1)
 	for i := 0; i <= k; i++ {
 		if i == snapAt {
 			g = c2xSnapshotRestore(f)
 			zz.Assert(c22PrimariesEqual(f, g), "state restored from a snapshot differs from the state the snapshot was taken from")
 			c22IndexesAgree(g, "restored replica")
+			// raft calls Snapshot() under the apply lock and Persist() later, while
+			// further entries are applied: keep a second snapshot object of this prefix
+			// and a frozen copy of the prefix state to compare it with at the end
+			lateSnap, lerr = f.Snapshot()
+			zz.Assert(lerr == nil, "Snapshot failed")
+			frozen = c2xSnapshotRestoreQuiet(f)
 		}
 		if i == k {
 			break
@@ -473,5 +482,14 @@ func VerifC22() {
 		}
 	}
 	zz.Assert(g != nil && c22PrimariesEqual(f, g), "a replica restored from a snapshot and fed the same log suffix ends in a different state")
+	if lateSnap != nil && frozen != nil {
+		sink := &c2xSink{}
+		zz.Assert(lateSnap.Persist(sink) == nil && len(sink.chunks) == 1, "Persist of an earlier snapshot failed")
+		if len(sink.chunks) == 1 {
+			late := c2xNew()
+			zz.Assert(late.Restore(&c2xReader{data: sink.chunks[0]}) == nil, "Restore failed")
+			zz.Assert(c22PrimariesEqual(frozen, late), "a snapshot taken at a prefix was altered by entries applied before it was persisted")
+		}
+	}
 	zz.Reach("end")
 }
